@@ -146,6 +146,20 @@ def check_c11(tier):
         if len(groups) % 5 == 2:
             irr["dribble"] = [1, 5, 13, 100][(len(groups) // 5) % 4]   # the answers arrive in pieces of this many bytes
         groups.append({"db": db, "irr": irr, "names": NAMES, "cases": cases})
+    # the ends of the address space, which lie outside the universe the model denotes over: the default routes, host
+    # routes, the last address - as route objects of ASes, reached by AS number, through an as-set, in a route-set, and
+    # combined; what is printed is compared literally
+    edge_irr = {"as_sets": {"AS-EDGE": ["AS65030", "AS65031"]}, "route_sets": {"RS-EDGE": ["0.0.0.0/0", "::/0", "198.51.100.0/24"]}, "filter_sets": {},
+                "routes4": {"AS65030": ["0.0.0.0/0", "192.0.2.0/24"], "AS65031": ["255.255.255.255/32"]},
+                "routes6": {"AS65030": ["::/0"], "AS65031": ["ffff:ffff:ffff:ffff:ffff:ffff:ffff:ffff/128", "2001:db8:ffff::/48"]},
+                "errors": {}, "empty_as_c": False, "pad": 0}
+    a30 = ["0.0.0.0/0", "192.0.2.0/24", "::/0"]; a31 = ["255.255.255.255/32", "ffff:ffff:ffff:ffff:ffff:ffff:ffff:ffff/128", "2001:db8:ffff::/48"]
+    rs = ["0.0.0.0/0", "::/0", "198.51.100.0/24"]
+    edge = [("AS65030", a30), ("AS65031", a31), ("AS-EDGE", a30 + a31), ("RS-EDGE", rs), ("AS-EDGE AND RS-EDGE", ["0.0.0.0/0", "::/0"]),
+            ("AS65031 OR RS-EDGE", a31 + rs)]
+    # (no AND NOT here: with IPv6 prefixes on the left the complement runs into the recorded finding)
+    groups.append({"db": {"asSets": {}, "routes": {}, "rtSets": {}, "fltSets": {}}, "irr": edge_irr, "names": NAMES,
+                   "cases": [{"case": f"edge{k}", "expr": {"op": "lit", "atoms": [], "rng": [0, 0]}, "expr_str": x, "expect_ranges": sorted(w)} for k, (x, w) in enumerate(edge)]})
     gpath = os.path.join(wd, "groups.ndjson")
     with open(gpath, "w") as f:
         for g in groups:
